@@ -193,6 +193,9 @@ func TestMutants(t *testing.T) {
 		c.Label("src:mutant")
 		c.Label("mut:" + req.Mut.Kind)
 		addStats(res)
+		if res.Status == "died" || res.Status == "timeout" || res.Status == "panic" {
+			harness.Sample("skipped-"+res.Status, 4, map[string]any{"req": req, "detail": res.Detail})
+		}
 		c.SetNonTrivial(res.NT && res.Status == "tree")
 		for _, f := range res.Fails {
 			if harness.Known(f.Sig) {
